@@ -1152,6 +1152,9 @@ class PolarsModel(data_algebra.data_model.DataModel):
         if isinstance(res, pl.LazyFrame):
             # work around https://github.com/pola-rs/polars/issues/5882#issue-1507040380
             res = res.collect()
+        # deletions name input columns: remove them before renaming (a new name may re-use a deleted one)
+        if (op.column_deletions is not None) and (len(op.column_deletions) > 0):
+            res = res.select([c for c in res.columns if c not in op.column_deletions])
         res = res.rename(op.column_remapping)
         res = res.select(op.columns_produced())
         if self.use_lazy_eval and isinstance(res, pl.DataFrame):
